@@ -36,11 +36,11 @@ def run(res, b, tier, seed):
     # the conclusion of the parser theorem (accepted programs satisfy PT.program), evaluated on the ASTs of the REAL parser
     with_ast = [c for c in cases if c.out.get("AST", ("", ""))[0] == "OK"]
     pt_answers = pipeline.model_lines(b, ["PTCHECK " + c.out["AST"][1] for c in with_ast])
-    pt_stats = dict(asts=len(with_ast), parser_typed=0, strict=0, emitter_typed=0, calls_agree_with_signatures=0)
+    pt_stats = dict(asts=len(with_ast), parser_typed=0, strict=0, emitter_typed=0, calls_agree_with_signatures=0, variables_used_as_declared=0)
     dis, fails = [], []
     for c, a in zip(with_ast, pt_answers):
         f = a.split(" ")
-        if len(f) != 5 or f[0] != "PT":
+        if len(f) != 6 or f[0] != "PT":
             fails.append((c, "ptcheck-failed", a[:200]))
             continue
         pt_stats["parser_typed"] += f[1] == "1"
@@ -50,6 +50,10 @@ def run(res, b, tier, seed):
         if f[4] != "1" and len(c.files) == 1:
             fails.append((c, "call-disagrees-with-signature", "a call in the accepted AST names no function defined before it with these parameter and return types "
                                                               "(PT.sigSs, conclusion of C06.calls_agree_with_signatures; single-file program)"))
+        pt_stats["variables_used_as_declared"] += f[5] == "1"
+        if f[5] != "1" and len(c.files) == 1:
+            fails.append((c, "variable-not-used-as-declared", "a variable in the accepted AST is used where no definition, parameter list or loop header visible at that "
+                                                              "place introduced it with that type (PT.useSs, conclusion of C07.accepted_programs_use_visible_variables)"))
         if f[1] != "1":
             fails.append((c, "accepted-ast-not-parser-typed", "the AST the parser returned violates PT.program (conclusion of C06.accepted_programs_are_typed)"))
         elif f[2] == "1" and f[3] != "1":
